@@ -267,6 +267,11 @@ def cases(rng, tier, shard, nshards):
                 if not unique_presentation(sub_items, stored, segs, edges):
                     continue
             p2_items = pre_items + ["p1" + sign] + post_items
+            if before and rng.random() < 0.5:
+                # leading edges only (their segments implied), then the nested path
+                alt = [w[0] + w[1] for w in before[1::2]] + ["p1" + sign] + post_items
+                if unique_presentation(alt, walk, segs, edges, {"p1": stored}):
+                    p2_items = alt
             if not unique_presentation(p2_items, walk, segs, edges, {"p1": stored}):
                 continue
             groups.append("O\tp1\t" + " ".join(sub_items))
